@@ -41,6 +41,9 @@ CHECKS = {
  'C10': ('model_checking', 'symbolic execution of clang LLVM IR of the normalisation kernels and of every construction path / vector-quantity accessor; z3 nlsat decides x/|x| identity over the reals, a 7*2^-p component bound by solver-checked local lemmas plus a unit-length lemma, z3 FP decides the zero-vector case and bit-identity of all paths with the kernels',
          'Direction / PlanarDirection kernels equal x/|x| over the reals, each component within 7*2^-p relative, hence Euclidean length within 4 ulps of one; zero vectors give exactly +0; every construction path (arrays, vectors, all 17 vector quantities, 2-D/3-D conversions, cross products) is bit-identical to the kernel; Magnitude() has the matching scalar type and value, component accessors return the stored components, magnitude times direction rebuilds the quantity within 16 ulps.',
          'standard model of rounding, squared length neither overflows nor underflows; exact invariance under power-of-two rescaling is not decided (declared in DESIGN.md); Magnitude() result type pinned by static_assert', '3 C10'),
+ 'C11': ('model_checking', 'symbolic execution of clang LLVM IR of the 8 arc-cosine kernels and 40 quantity-level forms; z3 FP decides, over an abstracted cosine, that every path confines the acos argument to [-1,1]; z3 nlsat decides the cosine identity and, by homogeneity scaling, that no intermediate overflows/underflows in the property\'s range; bit-identity of quantity forms and symmetry',
+         'On every path of every kernel acos receives 1, -1 or a cosine the path condition confines to [-1, 1], so the angle is a number in [0, pi]; the cosine is a.b/(|a||b|) over the reals (symmetric, length-independent); no intermediate overflows and nothing a divisor is made of underflows while the squared lengths are representable; Angle(a,b) = Angle(b,a); the quantity-level constructors and members are bit-identical to the kernels.',
+         'acos contract (libm); inputs non-zero finite with representable squared lengths; agreement with atan2 to 1e-7 rad not decided; direction operands are unit vectors (C10)', '3 C11'),
 }
 NA = {}
 def main():
